@@ -13,7 +13,7 @@
    model's Fixpoint: the model is a fixed point of the functional generated from the Python text;
    link_<x>_default_unique: it is the only one (induction over the finite value). *)
 From QV Require Import Translate.PyPrelude Translate.PyPrelude_proofs.
-From QV Require Import Json.JsspCodec Json.ResultCodec Json.Protocol_proofs.
+From QV Require Import Json.JsspCodec Json.ResultCodec Json.Protocol_proofs Json.Result_proofs.
 From QVGen Require Import C18Gen.
 Open Scope Z_scope.
 Open Scope list_scope.
@@ -676,8 +676,191 @@ Lemma link_parse_complex_number : forall d, gen_parse_complex_number d = parse_c
 Proof. parse_link gen_parse_complex_number parse_complex_number. Qed.
 Print Assumptions link_parse_complex_number.
 
-(* parse_quasidistribution is not translated since fix 110f6bc (`format(key, f"0{num_bits}b")`: computed format spec, outside the
-   translator's subset); in the generated hook its call stands for the model's parse_quasidistribution head_flags (spec). *)
+(* ------------------------------------------------------------------ parse_quasidistribution (format(key, f"0{num_bits}b"), idiom format-bin-zfill) *)
+(* the translator's rendering against the model's (ResultCodec.v: pos_bin / bin_str / zeros / zfill), for the non-negative ints
+   the views as_nonneg_int (spec) and key_nat (model) let through *)
+Lemma bin_digits_pos_eq p : py_bin_digits_pos p = pos_bin p.
+Proof. induction p as [p IH|p IH|]; cbn [py_bin_digits_pos pos_bin]; rewrite ?IH; reflexivity. Qed.
+
+Lemma zeros_eq n : py_zeros n = zeros n.
+Proof. induction n as [|n IH]; cbn [py_zeros zeros]; rewrite ?IH; reflexivity. Qed.
+
+Lemma bin_str_digits k : 0 <= k -> bin_str k = Ok (py_bin_digits k).
+Proof. intros Hk. destruct k as [|p|p]; [reflexivity|cbn [bin_str py_bin_digits]; f_equal; symmetry; apply bin_digits_pos_eq|lia]. Qed.
+
+Lemma bstr_digits k : 0 <= k -> bstr k = py_bin_digits k.
+Proof. intros Hk. unfold bstr. now rewrite (bin_str_digits k Hk). Qed.
+
+(* 0 <= k: the view's guard; the width may be anything here (zfill pads only when it is larger than the digits) *)
+Lemma format_bin_zfill_model k n : 0 <= k -> py_format_bin_zfill k n = zfill n (py_bin_digits k).
+Proof. intros Hk. rewrite (py_format_bin_zfill_nonneg k n Hk). unfold zfill, slen, py_str_len. now rewrite zeros_eq. Qed.
+
+(* one item of the comprehension: the generated element function against the model's *)
+Definition gen_item (w : Z) (kv : pyval * pyval) : result (string * pyval) :=
+  let '(key_, value_) := kv in
+  do z4_ <- as_nonneg_int key_; do z5_ <- as_nonneg_int (PNum (NInt w)); do s6_ <- py_format_bin_fspec z4_ z5_; Ok (s6_, value_).
+
+Lemma gen_item_spec w kv p : 0 <= w -> gen_item w kv = Ok p ->
+  exists z, fst kv = PNum (NInt z) /\ 0 <= z /\ p = (zfill w (bstr z), snd kv).
+Proof.
+  intros Hw. destruct kv as [k v]. unfold gen_item, as_nonneg_int.
+  replace (w <? 0) with false by (symmetry; apply Z.ltb_ge; exact Hw).
+  destruct k as [| |[z|m e]| | | | | | |]; try discriminate. destruct (Z.ltb_spec z 0) as [Hz|Hz]; [discriminate|].
+  cbn [bind]. rewrite (py_format_bin_fspec_nonneg z w Hw). cbn [bind]. intros E. injection E as <-.
+  exists z. rewrite (format_bin_zfill_model z w Hz), (bstr_digits z Hz). repeat split; [exact Hz].
+Qed.
+
+Lemma gen_item_model w kv : 0 <= w ->
+  (do k <- key_nat kv; do b <- bin_str k; Ok (PStr (zfill w b), snd kv)) = do p <- gen_item w kv; Ok (PStr (fst p), snd p).
+Proof.
+  intros Hw. destruct kv as [k v]. unfold gen_item, key_nat, as_nonneg_int. cbn [fst snd].
+  replace (w <? 0) with false by (symmetry; apply Z.ltb_ge; exact Hw).
+  destruct k as [| |[z|m e]| | | | | | |]; try reflexivity. destruct (Z.ltb_spec z 0) as [Hz|Hz]; [reflexivity|].
+  cbn [bind]. rewrite (py_format_bin_fspec_nonneg z w Hw), (bin_str_digits z Hz), (format_bin_zfill_model z w Hz). reflexivity.
+Qed.
+
+Lemma mapM_items_model w kvs : 0 <= w ->
+  mapM (fun kv : pyval * pyval => do k <- key_nat kv; do b <- bin_str k; Ok (PStr (zfill w b), snd kv)) kvs
+  = do xs <- mapM (gen_item w) kvs; Ok (map (fun p => (PStr (fst p), snd p)) xs).
+Proof.
+  intros Hw. induction kvs as [|kv r IH]; [reflexivity|]. cbn [mapM]. rewrite (gen_item_model w kv Hw), IH.
+  destruct (gen_item w kv) as [p|]; cbn [bind]; [|reflexivity]. destruct (mapM (gen_item w) r); reflexivity.
+Qed.
+
+(* different non-negative ints have different renderings of the same width (they parse back: Result_proofs.parse_zfill), so
+   the comprehension {format(key, ...): value ...} merges nothing when the keys of `data` are pairwise different *)
+Lemma gen_item_inj w kv kv' p p' : 0 <= w -> gen_item w kv = Ok p -> gen_item w kv' = Ok p' ->
+  py_eqb (fst kv) (fst kv') = false -> String.eqb (fst p) (fst p') = false.
+Proof.
+  intros Hw E E' Hne. destruct (gen_item_spec w kv p Hw E) as (z & Hk & Hz & ->). destruct (gen_item_spec w kv' p' Hw E') as (z' & Hk' & Hz' & ->).
+  rewrite Hk, Hk' in Hne. cbn [py_eqb num_pyeq] in Hne. cbn [fst]. apply String.eqb_neq. intros Heq.
+  assert (P : parse_bits (zfill w (bstr z)) = parse_bits (zfill w (bstr z'))) by now rewrite Heq.
+  rewrite !parse_zfill in P by (apply Z.leb_le; assumption). injection P as ->. now rewrite Z.eqb_refl in Hne.
+Qed.
+
+Lemma mapM_items_distinct w kvs : 0 <= w -> forall xs, mapM (gen_item w) kvs = Ok xs ->
+  keys_distinct (map fst kvs) = true -> py_keys_distinct String.eqb (map fst xs).
+Proof.
+  intros Hw. induction kvs as [|kv r IH]; intros xs E Hd.
+  - injection E as <-. exact I.
+  - cbn [mapM] in E. destruct (gen_item w kv) as [p|] eqn:Ep; cbn [bind] in E; [|discriminate].
+    destruct (mapM (gen_item w) r) as [ps|] eqn:Er; cbn [bind] in E; [|discriminate]. injection E as <-.
+    cbn [map keys_distinct] in Hd. apply andb_true_iff in Hd as [Hh Hr]. cbn [map py_keys_distinct]. split; [|exact (IH ps eq_refl Hr)].
+    clear IH Hr. revert ps Er Hh. induction r as [|kv' r IH]; intros ps Er Hh k' Hin.
+    + injection Er as <-. destruct Hin.
+    + cbn [mapM] in Er. destruct (gen_item w kv') as [p'|] eqn:Ep'; cbn [bind] in Er; [|discriminate].
+      destruct (mapM (gen_item w) r) as [ps'|] eqn:Er'; cbn [bind] in Er; [|discriminate]. injection Er as <-.
+      cbn [map forallb] in Hh. apply andb_true_iff in Hh as [H1 H2]. apply negb_true_iff in H1.
+      destruct Hin as [<-|Hin]; [exact (gen_item_inj w kv kv' p p' Hw Ep Ep' H1)|exact (IH ps' eq_refl H2 k' Hin)].
+Qed.
+
+(* the stored width is None or a non-negative int: what the encoder writes (len(bitstrings[0]) / None) *)
+Definition width_in_scope (v : pyval) : bool :=
+  match v with PNone => true | PNum (NInt w) => 0 <=? w | _ => false end.
+
+(* the `if num_bits is not None:` branch against the model's format_keys *)
+Lemma format_keys_eq nb kvs : is_none nb = false -> keys_distinct (map fst kvs) = true -> (kvs = [] -> width_in_scope nb = true) ->
+  (do v3_ <- pv_items (PDict kvs);
+   do xs7_ <- mapM (fun '(key_, value_) => do z4_ <- as_nonneg_int key_; do z5_ <- as_nonneg_int nb; do s6_ <- py_format_bin_fspec z4_ z5_; Ok (s6_, value_)) v3_;
+   Ok (sdict_to_py (fold_left (fun d_ kv_ => py_dict_set String.eqb d_ (fst kv_) (snd kv_)) xs7_ ([] : list (string * pyval)))))
+  = format_keys nb (PDict kvs).
+Proof.
+  intros Hn Hd He. cbn [pv_items view_dict bind].
+  assert (Bad : as_nonneg_int nb = Err ModelScope -> format_keys nb (PDict kvs) = Err ModelScope ->
+          (do xs7_ <- mapM (fun '(key_, value_) => do z4_ <- as_nonneg_int key_; do z5_ <- as_nonneg_int nb; do s6_ <- py_format_bin_fspec z4_ z5_; Ok (s6_, value_)) kvs;
+           Ok (sdict_to_py (fold_left (fun d_ kv_ => py_dict_set String.eqb d_ (fst kv_) (snd kv_)) xs7_ ([] : list (string * pyval)))))
+          = format_keys nb (PDict kvs) \/ (kvs = [] /\ width_in_scope nb = false)).
+  { intros E1 E2. destruct kvs as [|[k v] r]; [right; split; [reflexivity|]|left].
+    - destruct nb as [| |[z|m e]| | | | | | |]; try reflexivity; [discriminate Hn|].
+      unfold as_nonneg_int in E1. cbn [width_in_scope]. destruct (Z.ltb_spec z 0); [apply Z.leb_gt; assumption|discriminate].
+    - rewrite E2. cbn [mapM]. rewrite E1. unfold as_nonneg_int at 1. destruct k as [| |[z|m e]| | | | | | |]; try reflexivity. destruct (z <? 0); reflexivity. }
+  destruct nb as [| |[w|m e]| | | | | | |]; try discriminate Hn;
+    try (destruct Bad as [B|[-> B]]; [reflexivity|reflexivity|exact B|rewrite (He eq_refl) in B; discriminate B]).
+  destruct (Z.ltb_spec w 0) as [Hw|Hw].
+  - destruct Bad as [B|[-> B]]; [unfold as_nonneg_int; now replace (w <? 0) with true by (symmetry; apply Z.ltb_lt; exact Hw)
+                                |cbn [format_keys]; now replace (w <? 0) with true by (symmetry; apply Z.ltb_lt; exact Hw)
+                                |exact B|rewrite (He eq_refl) in B; discriminate B].
+  - clear Bad He. cbn [format_keys]. replace (w <? 0) with false by (symmetry; apply Z.ltb_ge; exact Hw).
+    rewrite (mapM_items_model w kvs Hw).
+    change (mapM (fun '(key_, value_) => do z4_ <- as_nonneg_int key_; do z5_ <- as_nonneg_int (PNum (NInt w)); do s6_ <- py_format_bin_fspec z4_ z5_; Ok (s6_, value_)) kvs)
+      with (mapM (gen_item w) kvs).
+    destruct (mapM (gen_item w) kvs) as [xs|] eqn:Ex; cbn [bind]; [|reflexivity].
+    rewrite (py_dict_fold_distinct String.eqb xs []); [reflexivity|]. cbn [map app]. exact (mapM_items_distinct w kvs Hw xs Ex Hd).
+Qed.
+
+(* dict(x) answers a dict whose keys are pairwise different: for a list / tuple of pairs (what the encoder writes) dict() itself
+   establishes it, a dict value is returned as it is *)
+Lemma py_dict_is_dict x data : py_dict x = Ok data -> exists kvs, data = PDict kvs.
+Proof.
+  destruct x; cbn [py_dict]; try discriminate.
+  1-2: destruct (pdict_of_items [] l) as [kvs|]; cbn [bind]; [|discriminate]; intros E; injection E as <-; now exists kvs.
+  intros E; injection E as <-. now exists kvs.
+Qed.
+
+Lemma pdict_set_keys_forallb (P : pyval -> bool) r k v :
+  forallb P (map fst r) = true -> P k = true -> forallb P (map fst (pdict_set r k v)) = true.
+Proof.
+  intros Hr Hk. induction r as [|[k' v'] r IH]; cbn [pdict_set map fst forallb]; [now rewrite Hk|].
+  cbn [map fst forallb] in Hr. apply andb_true_iff in Hr as [H1 H2].
+  destruct (py_eqb k' k); cbn [map fst forallb]; rewrite H1; [exact H2|exact (IH H2)].
+Qed.
+
+Lemma pdict_set_keys_distinct acc k v : keys_distinct (map fst acc) = true -> keys_distinct (map fst (pdict_set acc k v)) = true.
+Proof.
+  induction acc as [|[k' v'] r IH]; intros H; [reflexivity|]. cbn [pdict_set].
+  destruct (py_eqb k' k) eqn:E; [exact H|]. cbn [map fst keys_distinct] in *. apply andb_true_iff in H as [H1 H2].
+  rewrite (IH H2), andb_true_r. apply pdict_set_keys_forallb; [exact H1|now rewrite E].
+Qed.
+
+Lemma pdict_of_items_keys_distinct l : forall acc d,
+  keys_distinct (map fst acc) = true -> pdict_of_items acc l = Ok d -> keys_distinct (map fst d) = true.
+Proof.
+  induction l as [|it r IH]; intros acc d Ha E; [injection E as <-; exact Ha|]. cbn [pdict_of_items] in E.
+  destruct it as [| | | |l0|l0| | | |]; try discriminate.
+  all: destruct l0 as [|k [|v [|? ?]]]; try discriminate.
+  all: destruct (hashable k); [|discriminate]; exact (IH _ _ (pdict_set_keys_distinct acc k v Ha) E).
+Qed.
+
+Lemma py_dict_keys_distinct x kvs :
+  (forall kvs0, x = PDict kvs0 -> keys_distinct (map fst kvs0) = true) -> py_dict x = Ok (PDict kvs) -> keys_distinct (map fst kvs) = true.
+Proof.
+  intros Hx. destruct x; cbn [py_dict]; try discriminate.
+  1-2: destruct (pdict_of_items [] l) as [kvs0|] eqn:E; cbn [bind]; [|discriminate]; intros E'; injection E' as <-;
+       exact (pdict_of_items_keys_distinct l [] kvs0 eq_refl E).
+  intros E; injection E as <-. exact (Hx kvs0 eq_refl).
+Qed.
+
+(* HYPOTHESES of the link.
+   quasi_data_wf: a DICT value stored under "quasidistribution_data" has pairwise different keys — the invariant of every Python
+     dict (PyVal.v, PDict); for a list / tuple of pairs (what the encoder writes) nothing is assumed: dict(...) establishes it
+     (py_dict_keys_distinct).  Needed because /repo's comprehension builds a dict (a repeated rendering would be merged), while the
+     model's format_keys maps over the items.
+   quasi_width_in_scope: for EMPTY data the stored width is None or a non-negative int.  A difference between model and code found
+     by the link: /repo's comprehension formats nothing for empty data, so ANY stored width is accepted there, while the model's
+     format_keys looks at the width first (ModelScope unless a non-negative int).  The encoder writes None for empty data. *)
+Definition quasi_data_wf (d : sdict) : Prop :=
+  forall kvs, dget "quasidistribution_data" d = Ok (PDict kvs) -> keys_distinct (map fst kvs) = true.
+Definition quasi_width_in_scope (d : sdict) : Prop :=
+  forall x, dget "quasidistribution_data" d = Ok x -> py_dict x = Ok (PDict []) ->
+            width_in_scope (dget_or_none "quasidistribution_num_bits" d) = true.
+
+Lemma link_parse_quasidistribution : forall d, quasi_data_wf d -> quasi_width_in_scope d ->
+  gen_parse_quasidistribution d = parse_quasidistribution head_flags d.
+Proof.
+  intros d H1 H2. unfold quasi_data_wf, quasi_width_in_scope in *. unfold gen_parse_quasidistribution, parse_quasidistribution.
+  rewrite !get_dget. cbn [legacy_width head_flags].
+  destruct (dget "quasidistribution_data" d) as [x|] eqn:Ex; cbn [bind]; [|reflexivity].
+  destruct (py_dict x) as [data|] eqn:Ed; cbn [bind]; [|reflexivity].
+  destruct (py_dict_is_dict x data Ed) as [kvs ->]. cbv zeta.
+  assert (Hd : keys_distinct (map fst kvs) = true) by (apply (py_dict_keys_distinct x kvs); [intros kvs0 ->; exact (H1 kvs0 eq_refl)|exact Ed]).
+  assert (He : kvs = [] -> width_in_scope (dget_or_none "quasidistribution_num_bits" d) = true) by (intros ->; exact (H2 x eq_refl Ed)).
+  clear H1 H2 Ex Ed. generalize dependent (dget_or_none "quasidistribution_num_bits" d). intros nb He.
+  destruct (is_none nb) eqn:En; cbn [negb].
+  - destruct nb; try discriminate En. cbn [bind]. destruct (dget "quasidistribution_shots" d); cbn [bind]; [|reflexivity]. destruct (dget "quasidistribution_stdev_bound" d); cbn [bind]; [|reflexivity]. apply bind_ok.
+  - destruct nb; try discriminate En; rewrite (format_keys_eq _ kvs En Hd He);
+      (destruct (format_keys _ (PDict kvs)); cbn [bind]; [|reflexivity]; cbn [bind]; destruct (dget "quasidistribution_shots" d); cbn [bind]; [|reflexivity]; destruct (dget "quasidistribution_stdev_bound" d); cbn [bind]; [|reflexivity]; apply bind_ok).
+Qed.
+Print Assumptions link_parse_quasidistribution.
 
 (* BytesIO / b64decode / qpy_load are opaque: the text IS the circuit token *)
 Lemma link_parse_quantum_circuit : forall d, gen_parse_quantum_circuit d = parse_quantum_circuit d.
@@ -742,11 +925,13 @@ Proof.
 Qed.
 Print Assumptions link_parse_evolving_ansatz_result.
 
-Lemma link_result_hook : forall d, gen_result_hook d = result_hook head_flags d.
+(* the hypotheses are those of link_parse_quasidistribution (the hook hands its argument on unchanged) *)
+Lemma link_result_hook : forall d, quasi_data_wf d -> quasi_width_in_scope d -> gen_result_hook d = result_hook head_flags d.
 Proof.
-  intros d. unfold gen_result_hook, result_hook. rewrite (link_parse_evolving_ansatz_result d).
+  intros d Hq1 Hq2. unfold gen_result_hook, result_hook. rewrite (link_parse_evolving_ansatz_result d), (link_parse_quasidistribution d Hq1 Hq2).
   rewrite !any_key_eq.
   match goal with |- context [any_key_in (?x :: ?t) d] => change (x :: t) with result_own_keys end.
+  generalize (parse_quasidistribution head_flags d). intros pq.
   gen_keys d. dict_norm.
   rewrite link_evqe_hook, link_parse_complex_number, link_parse_quantum_circuit,
     link_parse_base_population_evaluation. reflexivity.
